@@ -26,4 +26,8 @@ StableInv == Extends(prev, km)
 Idempotent == last.name # "" => (km[last.name] = last.key /\ (last.name \in DOMAIN prev => km = prev))
 \* a new key never collides and is positive
 FreshKey == (last.name # "" /\ last.name \notin DOMAIN prev) => (last.key \notin Keys(prev) /\ last.key >= 1)
+\* the functional rule (FirstFree, what the judge steps real histories through) and the relational
+\* rule of RegistryInd.tla (what Apalache proves inductive over all integer keys) are the same rule
+RuleAgrees == (last.name # "" /\ last.name \notin DOMAIN prev) =>
+                (IsFirstFree(prev, last.key) /\ \A k \in 1..(Cardinality(DOMAIN prev) + 1) : IsFirstFree(prev, k) => k = last.key)
 =============================================================================
